@@ -169,9 +169,12 @@ C03 = {
         [raw("get", b"get k3\r\n"), raw("stats", b"stats\r\n"), raw("set", b"set k3 0 0 1\r\nz\r\n")],
     ]},
     "http": {"greet": ("none", ""), "scripts": [
-        [raw("get", http_req("GET", "/one")), raw("post", http_req("POST", "/one/form", b"a=1&b=2")), raw("head", http_req("HEAD", "/one"))],
-        [raw("get", http_req("GET", "/two?x=1", extra="Cookie: sid=two\r\n")), raw("put", http_req("PUT", "/two/file", b"data-two")), raw("options", http_req("OPTIONS", "*"))],
-        [raw("delete", http_req("DELETE", "/three")), raw("get", http_req("GET", "/three/index.html", extra="X-Probe: 3\r\n")), raw("post", http_req("POST", "/three", b"three"))],
+        # bodies of different lengths, body-bearing requests first, in the middle and last (what is recorded of a body must
+        # not depend on the requests other connections sent before)
+        [raw("post", http_req("POST", "/one/form", b"username=admin&password=hunter2&remember=1&next=%2Fone")), raw("get", http_req("GET", "/one")),
+         raw("post2", http_req("POST", "/one/form", b"username=admin&password=hunter2&remember=1&next=%2Fone"))],
+        [raw("put", http_req("PUT", "/two/file", b"two")), raw("get", http_req("GET", "/two?x=1", extra="Cookie: sid=two\r\n")), raw("options", http_req("OPTIONS", "*"))],
+        [raw("delete", http_req("DELETE", "/three")), raw("get", http_req("GET", "/three/index.html", extra="X-Probe: 3\r\n")), raw("post", http_req("POST", "/three", b"three-3-three"))],
     ]},
     "ldap": {"greet": ("none", ""), "scripts": [
         [raw("bind-root", ldap_bind(1, "root", "root")), raw("search-uid", ldap_search(2, "dc=example,dc=com", "uid", "alice")),
@@ -348,7 +351,14 @@ C04 = {
         {"setup": [raw("user", b"alice\r\n"), raw("pass", b"pw\r\n")], "skip": 0, "reqs": [
             rq("uname -a\r\n", ev=[{"type": "session", "telnet.command": "uname -a"}]),
             rq("id\r\n", ev=[{"type": "session", "telnet.command": "id"}]),
-            rq("cat /etc/passwd\r\n", ev=[{"type": "session", "telnet.command": "cat /etc/passwd"}])]}],
+            rq("cat /etc/passwd\r\n", ev=[{"type": "session", "telnet.command": "cat /etc/passwd"}])]},
+        # the whole dialogue as one stream: the cut may fall between the password and the first command (type-ahead)
+        {"setup": [], "skip": 0, "reqs": [
+            rq("bob\r\n", ev=[]),
+            rq("hunter2\r\n", ev=[]),
+            rq("ls -la\r\n", ev=[{"type": "session", "telnet.command": "ls -la"}]),
+            rq("uname -a\r\n", ev=[{"type": "session", "telnet.command": "uname -a"}]),
+            rq("exit\r\n", ev=[{"type": "session", "telnet.command": "exit"}])]}],
         "keys": ["type", "telnet.command"]},
     "http": {"greet": ("none", ""), "streams": [
         [rq(http_req("GET", "/a"), ev=[{"http.method": "GET", "http.url": "/a", "payload": ""}]),
